@@ -47,8 +47,11 @@ theorem copyUp_spec (c : Nat) (hc : 0 < c) (rf wf : Option Nat) (data : Bytes) :
   simp at e1 e2
   exact ⟨by rw [h1, e1], e2⟩
 
-theorem localUp_spec (cfg : Cfg) (hs : UpSound .local cfg) (c : Nat) (hc : 0 < c) (data : Bytes) (old : Option Bytes) :
-    AttSpec (localUp cfg c) (UInv data old) (UGood data) (fun e => e = .os) (fun _ => True) := by
+theorem faultBase_some (x : Fault) : faultBase (some x) = some x.base := rfl
+theorem faultBase_none : faultBase none = none := rfl
+
+theorem localUpAt_spec (cfg : Cfg) (hs : UpSound .local cfg) (c : Nat) (hc : 0 < c) (data : Bytes) (old : Option Bytes) (k : Nat) :
+    AttSpec (localUpAt cfg c k) (UInv data old) (UGood data) (fun e => e = .os k) (fun _ => True) := by
   obtain ⟨hrw, hca, hul, _⟩ := hs
   have hul := hul rfl
   intro f st hinv _
@@ -57,21 +60,21 @@ theorem localUp_spec (cfg : Cfg) (hs : UpSound .local cfg) (c : Nat) (hc : 0 < c
   simp only at hsrc htemps hvis
   subst hsrc htemps
   have hfail : ∀ (s : Src) (n : Nat), s.data = data →
-      (⟨some Err.os, exceptUp cfg { src := s, visible := visible, temps := if (cfg.upCatchAll && cfg.upUnlink) = true then 0 else 0 + 1 }, n⟩ : Att UState).err = some .os ∧
+      (⟨some (Err.os k), exceptUp cfg { src := s, visible := visible, temps := if (cfg.upCatchAll && cfg.upUnlink) = true then 0 else 0 + 1 }, n⟩ : Att UState).err = some (.os k) ∧
       UInv data old (exceptUp cfg { src := s, visible := visible, temps := if (cfg.upCatchAll && cfg.upUnlink) = true then 0 else 0 + 1 }) := by
     intro s n hsd
     refine ⟨rfl, ?_⟩
     simp only [exceptUp, hca, hul, hrw, Src.rewind, Bool.and_self, if_true, UInv]
     refine ⟨?_, trivial, hvis⟩
     rw [← hsd]
-  unfold localUp
+  unfold localUpAt
   by_cases h1 : f = some .mktemp
   · rw [if_pos h1]
-    exact Or.inr ⟨.os, rfl, rfl, ⟨rfl, rfl, hvis⟩⟩
+    exact Or.inr ⟨.os k, rfl, rfl, ⟨rfl, rfl, hvis⟩⟩
   · rw [if_neg h1]
     by_cases h2 : f = some .pre
     · rw [if_pos h2]
-      exact Or.inr ⟨.os, (hfail ⟨data, 0⟩ 0 rfl).1, rfl, (hfail ⟨data, 0⟩ 0 rfl).2⟩
+      exact Or.inr ⟨.os k, (hfail ⟨data, 0⟩ 0 rfl).1, rfl, (hfail ⟨data, 0⟩ 0 rfl).2⟩
     · rw [if_neg h2]
       obtain ⟨hd, hnf, hdone⟩ := copyUp_spec c hc (faultSrc f) (faultMid f) data
       generalize hcl : copyLoop (· ++ ·) c (faultSrc f) (faultMid f) (data.length + 1) 0 ⟨data, 0⟩ ([] : Bytes) = r at hd hnf hdone
@@ -83,7 +86,7 @@ theorem localUp_spec (cfg : Cfg) (hs : UpSound .local cfg) (c : Nat) (hc : 0 < c
         simp only
         by_cases h3 : f = some .rename
         · rw [if_pos h3]
-          exact Or.inr ⟨.os, (hfail s t.length hd).1, rfl, (hfail s t.length hd).2⟩
+          exact Or.inr ⟨.os k, (hfail s t.length hd).1, rfl, (hfail s t.length hd).2⟩
         · rw [if_neg h3]
           refine Or.inl ⟨rfl, ?_, rfl, ?_⟩
           · show s = ⟨data, data.length⟩
@@ -94,8 +97,16 @@ theorem localUp_spec (cfg : Cfg) (hs : UpSound .local cfg) (c : Nat) (hc : 0 < c
             rw [ht]
       | fault =>
         simp only
-        exact Or.inr ⟨.os, (hfail s t.length hd).1, rfl, (hfail s t.length hd).2⟩
+        exact Or.inr ⟨.os k, (hfail s t.length hd).1, rfl, (hfail s t.length hd).2⟩
       | fuel => exact absurd rfl hnf
+
+/-- the real method: whatever class the fault surfaces with, the exception is an OSError of some class -/
+theorem localUp_spec (cfg : Cfg) (hs : UpSound .local cfg) (c : Nat) (hc : 0 < c) (data : Bytes) (old : Option Bytes) :
+    AttSpec (localUp cfg c) (UInv data old) (UGood data) (fun e => ∃ k, e = .os k) (fun _ => True) := by
+  intro f st hinv _
+  rcases localUpAt_spec cfg hs c hc data old (faultClass f) (faultBase f) st hinv (fun _ _ => trivial) with h | ⟨e, h1, h2, h3⟩
+  · exact Or.inl h
+  · exact Or.inr ⟨e, h1, ⟨_, h2⟩, h3⟩
 
 theorem localUp_none (cfg : Cfg) (c : Nat) (hc : 0 < c) (data : Bytes) (old : Option Bytes) (st : UState)
     (hinv : UInv data old st) : (localUp cfg c none st).err = none := by
@@ -104,6 +115,8 @@ theorem localUp_none (cfg : Cfg) (c : Nat) (hc : 0 < c) (data : Bytes) (old : Op
   simp only at hsrc
   subst hsrc
   unfold localUp
+  rw [faultBase_none]
+  unfold localUpAt
   simp only [reduceCtorEq, if_false, faultSrc, faultMid]
   have hd := copyLoop_done (· ++ ·) c hc (data.length + 1) 0 ⟨data, 0⟩ ([] : Bytes) (by simp)
   generalize copyLoop (· ++ ·) c none none (data.length + 1) 0 ⟨data, 0⟩ ([] : Bytes) = r at hd
@@ -112,10 +125,13 @@ theorem localUp_none (cfg : Cfg) (c : Nat) (hc : 0 < c) (data : Bytes) (old : Op
   subst hd
   rfl
 
-/-- faults that make a local upload attempt fail wherever they are placed -/
-def localUpHard : Fault → Prop
+/-- places where a fault makes a local upload attempt fail whatever the payload -/
+def localUpHardAt : Fault → Prop
   | .pre | .mktemp | .rename => True
   | _ => False
+
+/-- faults that make a local upload attempt fail wherever they are placed (with whatever errno they surface) -/
+def localUpHard (x : Fault) : Prop := localUpHardAt x.base
 
 theorem localUp_hard (cfg : Cfg) (c : Nat) (hc : 0 < c) (data : Bytes) (old : Option Bytes) (x : Fault) (st : UState)
     (hinv : UInv data old st) (hx : localUpHard x) : (localUp cfg c (some x) st).err ≠ none := by
@@ -123,9 +139,14 @@ theorem localUp_hard (cfg : Cfg) (c : Nat) (hc : 0 < c) (data : Bytes) (old : Op
   obtain ⟨src, visible, temps⟩ := st
   simp only at hsrc
   subst hsrc
-  cases x with
-  | pre => simp [localUp]
-  | mktemp => simp [localUp]
+  unfold localUp
+  rw [faultBase_some]
+  unfold localUpHard at hx
+  generalize faultClass (some x) = kk
+  generalize x.base = y at hx
+  cases y with
+  | pre => simp [localUpAt]
+  | mktemp => simp [localUpAt]
   | src j => exact False.elim hx
   | mid j => exact False.elim hx
   | sink j => exact False.elim hx
@@ -133,8 +154,9 @@ theorem localUp_hard (cfg : Cfg) (c : Nat) (hc : 0 < c) (data : Bytes) (old : Op
   | cut k => exact False.elim hx
   | status code ra => exact False.elim hx
   | lost => exact False.elim hx
+  | errno k f => exact False.elim hx
   | rename =>
-    unfold localUp
+    unfold localUpAt
     simp only [reduceCtorEq, Option.some.injEq, if_false, faultSrc, faultMid]
     have hd := copyLoop_done (· ++ ·) c hc (data.length + 1) 0 ⟨data, 0⟩ ([] : Bytes) (by simp)
     generalize copyLoop (· ++ ·) c none none (data.length + 1) 0 ⟨data, 0⟩ ([] : Bytes) = r at hd
@@ -184,6 +206,7 @@ theorem httpUp_spec (cfg : Cfg) (b : Backend) (hs : UpSound b cfg) (c : Nat) (hc
       | trunc => simp [httpUp, hfull, hdok, UGood]
       | cut k => simp [httpUp, hfull, hdok, UGood]
       | rename => simp [httpUp, hfull, hdok, UGood]
+      | errno k f => simp [httpUp, hfull, hdok, UGood]
   cases f with
   | none => exact Or.inl (hokcase none (by simp) (by simp) (by simp) (by simp))
   | some x =>
@@ -210,6 +233,7 @@ theorem httpUp_spec (cfg : Cfg) (b : Backend) (hs : UpSound b cfg) (c : Nat) (hc
     | trunc => exact Or.inl (hokcase _ (by simp) (by simp) (by simp) (by simp))
     | cut k => exact Or.inl (hokcase _ (by simp) (by simp) (by simp) (by simp))
     | rename => exact Or.inl (hokcase _ (by simp) (by simp) (by simp) (by simp))
+    | errno k f => exact Or.inl (hokcase _ (by simp) (by simp) (by simp) (by simp))
 
 /-- faults that make an HTTP upload attempt fail wherever they are placed -/
 def httpUpHard : Fault → Prop
@@ -237,6 +261,7 @@ theorem httpUp_hard (cfg : Cfg) (c : Nat) (hc : 0 < c) (data : Bytes) (old : Opt
   | trunc => exact False.elim hx
   | cut k => exact False.elim hx
   | rename => exact False.elim hx
+  | errno k f => exact False.elim hx
 
 /-! ## downloads -/
 
@@ -263,19 +288,19 @@ theorem copyDown_spec (c : Nat) (hc : 0 < c) (rf wf : Option Nat) (obj : Bytes) 
   rw [h1, e1]
   exact Sink.write_all k obj hk hl
 
-theorem localDown_spec (cfg : Cfg) (hs : DownSound cfg) (c : Nat) (hc : 0 < c) (obj : Bytes) :
-    AttSpec (localDown cfg c obj) DInv (DGood obj) (fun e => e = .os) (fun _ => True) := by
+theorem localDownAt_spec (cfg : Cfg) (hs : DownSound cfg) (c : Nat) (hc : 0 < c) (obj : Bytes) (k : Nat) :
+    AttSpec (localDownAt cfg c obj k) DInv (DGood obj) (fun e => e = .os k) (fun _ => True) := by
   have hs' := hs
   obtain ⟨hrw, hca, htr⟩ := hs
   intro f st hinv _
-  unfold localDown
+  unfold localDownAt
   by_cases h1 : f = some .pre
   · rw [if_pos h1]
-    exact Or.inr ⟨.os, rfl, rfl, hinv⟩
+    exact Or.inr ⟨.os k, rfl, rfl, hinv⟩
   · rw [if_neg h1]
     by_cases h2 : f = some .trunc ∧ cfg.downTruncate = true
     · rw [if_pos h2]
-      exact Or.inr ⟨.os, rfl, rfl, exceptDown_inv cfg hs' st⟩
+      exact Or.inr ⟨.os k, rfl, rfl, exceptDown_inv cfg hs' st⟩
     · rw [if_neg h2]
       simp only [htr, if_true]
       obtain ⟨hnf, hdone⟩ := copyDown_spec c hc (faultMid f) (faultSink f) obj (st.truncate obj.length) hinv (truncate_length_le st obj.length)
@@ -284,12 +309,21 @@ theorem localDown_spec (cfg : Cfg) (hs : DownSound cfg) (c : Nat) (hc : 0 < c) (
       simp only at hnf hdone
       cases e with
       | done => exact Or.inl ⟨rfl, hdone rfl⟩
-      | fault => exact Or.inr ⟨.os, rfl, rfl, exceptDown_inv cfg hs' k'⟩
+      | fault => exact Or.inr ⟨.os k, rfl, rfl, exceptDown_inv cfg hs' k'⟩
       | fuel => exact absurd rfl hnf
+
+theorem localDown_spec (cfg : Cfg) (hs : DownSound cfg) (c : Nat) (hc : 0 < c) (obj : Bytes) :
+    AttSpec (localDown cfg c obj) DInv (DGood obj) (fun e => ∃ k, e = .os k) (fun _ => True) := by
+  intro f st hinv _
+  rcases localDownAt_spec cfg hs c hc obj (faultClass f) (faultBase f) st hinv (fun _ _ => trivial) with h | ⟨e, h1, h2, h3⟩
+  · exact Or.inl h
+  · exact Or.inr ⟨e, h1, ⟨_, h2⟩, h3⟩
 
 theorem localDown_none (cfg : Cfg) (hs : DownSound cfg) (c : Nat) (hc : 0 < c) (obj : Bytes) (st : Sink) (hinv : DInv st) :
     (localDown cfg c obj none st).err = none := by
   unfold localDown
+  rw [faultBase_none]
+  unfold localDownAt
   simp only [reduceCtorEq, if_false, false_and, faultMid, faultSink]
   have hd := copyLoop_done Sink.write c hc (obj.length + 1) 0 ⟨obj, 0⟩ (if cfg.downTruncate = true then st.truncate obj.length else st) (by simp)
   generalize copyLoop Sink.write c none none (obj.length + 1) 0 ⟨obj, 0⟩ (if cfg.downTruncate = true then st.truncate obj.length else st) = r at hd
@@ -298,16 +332,24 @@ theorem localDown_none (cfg : Cfg) (hs : DownSound cfg) (c : Nat) (hc : 0 < c) (
   subst hd
   rfl
 
-def localDownHard : Fault → Prop
+def localDownHardAt : Fault → Prop
   | .pre | .trunc => True
   | _ => False
+
+def localDownHard (x : Fault) : Prop := localDownHardAt x.base
 
 theorem localDown_hard (cfg : Cfg) (hs : DownSound cfg) (c : Nat) (obj : Bytes) (x : Fault) (st : Sink) (hx : localDownHard x) :
     (localDown cfg c obj (some x) st).err ≠ none := by
   obtain ⟨_, _, htr⟩ := hs
-  cases x with
-  | pre => simp [localDown]
-  | trunc => simp [localDown, htr]
+  unfold localDown
+  rw [faultBase_some]
+  unfold localDownHard at hx
+  generalize faultClass (some x) = kk
+  generalize x.base = y at hx
+  cases y with
+  | pre => simp [localDownAt]
+  | trunc => simp [localDownAt, htr]
+  | errno k f => exact False.elim hx
   | mktemp => exact False.elim hx
   | src j => exact False.elim hx
   | mid j => exact False.elim hx
@@ -342,6 +384,7 @@ theorem httpDown_spec (cfg : Cfg) (hs : DownSound cfg) (c : Nat) (hc : 0 < c) (o
     | trunc => exact Or.inl ⟨rfl, hgood⟩
     | lost => exact Or.inl ⟨rfl, hgood⟩
     | rename => exact Or.inl ⟨rfl, hgood⟩
+    | errno k f => exact Or.inl ⟨rfl, hgood⟩
 
 def httpDownHard : Fault → Prop
   | .pre | .status _ _ | .cut _ => True
@@ -360,5 +403,6 @@ theorem httpDown_hard (cfg : Cfg) (c : Nat) (obj : Bytes) (x : Fault) (st : Sink
   | trunc => exact False.elim hx
   | lost => exact False.elim hx
   | rename => exact False.elim hx
+  | errno k f => exact False.elim hx
 
 end Replicat.Retry
